@@ -11,6 +11,13 @@ type UnwrapAggPlanner struct {
 
 func (l *UnwrapAggPlanner) Process(ctx *shared.PlannerContext,
 	in chan []shared.LogEntry) (chan []shared.LogEntry, error) {
+	switch l.Function {
+	case "rate", "sum_over_time", "avg_over_time", "max_over_time", "min_over_time", "first_over_time", "last_over_time":
+	default:
+		// stddev_over_time, stdvar_over_time (and any name addValue has no case for) left every bucket empty: the
+		// query answered with an empty matrix where ClickHouse computes the function
+		return nil, &shared.NotSupportedError{Msg: l.Function + " over an unwrapped value is not supported yet."}
+	}
 	return l.process(ctx, in, aggregatorPlannerOps{
 		addValue: l.addValue,
 		finalize: l.finalize,
